@@ -149,3 +149,57 @@ class Run:
         ),
     }
     ensures = dict(invariant="invariant(self)")
+
+
+# ------------------------------------------------------------------ how the actor is wired to its request channel
+from pyvc.spec import Delta, SetOf   # noqa: E402  pylint: disable=wrong-import-position
+
+PW = "frequenz.sdk.microgrid._power_wrapper"
+DEFAULT_BUFFER = 50       # frequenz.channels' default receiver buffer: bursts of requests up to this size are not dropped
+
+ReqChannelT = ExtObj("frequenz.channels.Broadcast", methods=dict(
+    new_receiver=dict(returns="rx", effects={"n_receivers": "self.n_receivers + 1",
+                                             "limit": "kwargs['limit'] if 'limit' in kwargs else DEFAULT_BUFFER"}),
+    new_sender=dict(returns="tx")), n_receivers=Int, limit=Int)
+OtherChannelT = ExtObj("frequenz.channels.Broadcast (results / status)", methods=dict(
+    new_receiver=dict(returns="other_rx"), new_sender=dict(returns="other_tx")))
+DistActorT = ExtObj("PowerDistributingActor", methods=dict(start=dict(effects={"n_started": "self.n_started + 1"})), n_started=Int)
+DistFactoryT = ExtObj("PowerDistributingActor factory", methods={"__call__": dict(returns="actor", effects={
+    "n_made": "self.n_made + 1", "given_receiver": "kwargs['requests_receiver']"})}, n_made=Int,
+    given_receiver=ExtObj("frequenz.channels.Receiver"))
+WrapGraphT = ExtObj("ComponentGraph", methods=dict(components=dict(returns="found")))
+from pyvc.spec import Enum as EnumT   # noqa: E402  pylint: disable=wrong-import-position
+WrapCategoryT = EnumT("ext:frequenz.client.microgrid.ComponentCategory",
+                      ["NONE", "GRID", "METER", "INVERTER", "BATTERY", "EV_CHARGER", "CHP"])
+WrapperT = Obj(f"{PW}:PowerWrapper", _power_distributing_actor=Opt(DistActorT), _component_category=WrapCategoryT,
+               _component_type=OpaqueT("type"), _api_power_request_timeout=Delta,
+               _power_distribution_requests_channel=ReqChannelT, _power_distribution_results_channel=OtherChannelT,
+               status_channel=OtherChannelT)
+
+
+@contract(f"{PW}:PowerWrapper._start_power_distributing_actor")
+class StartDistributingActor:
+    """C14 (wiring): the distributor is created once, started once, and reads requests through a receiver with at least
+    the channel library's default buffer - with a one-slot receiver, requests for DIFFERENT groups issued back to back
+    overwrite each other before the actor sees them, and the last request of a group is never applied."""
+    self_shape = WrapperT
+    ghost = dict(conn=ExtObj("ConnectionManager", component_graph=WrapGraphT), found=SetOf(Int),
+                 rx=ExtObj("frequenz.channels.Receiver"), tx=ExtObj("frequenz.channels.Sender"),
+                 other_rx=ExtObj("frequenz.channels.Receiver"), other_tx=ExtObj("frequenz.channels.Sender"),
+                 actor=DistActorT, make_actor=DistFactoryT)
+    externals = {"frequenz.sdk.microgrid.connection_manager:get": "conn",
+                 "frequenz.sdk.microgrid._power_distributing:PowerDistributingActor": "call make_actor",
+                 "frequenz.sdk.microgrid._power_distributing.power_distributing:PowerDistributingActor": "call make_actor"}
+    modifies = ["self._power_distributing_actor", "self._power_distribution_requests_channel", "actor", "make_actor", "conn",
+                "self._power_distribution_results_channel", "self.status_channel"]
+    requires = dict(fresh="self._power_distribution_requests_channel.n_receivers == 0 and actor.n_started == 0"
+                          " and make_actor.n_made == 0")
+    ensures = dict(
+        created_and_started_once_when_missing="implies(old(self._power_distributing_actor is None) and len(found) > 0,"
+                                              " make_actor.n_made == 1 and actor.n_started == 1"
+                                              " and self._power_distribution_requests_channel.n_receivers == 1"
+                                              " and make_actor.given_receiver is rx)",
+        request_buffer_not_reduced="implies(make_actor.n_made == 1,"
+                                   " self._power_distribution_requests_channel.limit >= DEFAULT_BUFFER)",
+        nothing_without_components="implies(len(found) == 0 or old(self._power_distributing_actor is not None), make_actor.n_made == 0)",
+    )
